@@ -32,8 +32,9 @@ theorem entry_size (S : Schema) (kk : SK) (vty : Ty) (k v : V) (h : legalKey kk 
 
 /-- **`SizeOfMapEntry`, one iteration = the `sizeMsgList` arm** -/
 theorem tEntrySize_eq (S : Schema) (num : Nat) (kk : SK) (vty : Ty) (k v : V) (h : legalKey kk = true) :
-    tEntrySize S num kk vty k v = sizeMsgList S (entryMD kk vty) num [mkEntry k v] := by
-  simp only [sizeMsgList, entry_size S kk vty k v h, tEntrySize]
+    tEntrySize S num kk vty k v = sizeMsgList S (entryMD kk vty) num true [mkEntry k v] := by
+  have hn : nilEntry (entryMD kk vty) (mkEntry k v) = false := by simp [nilEntry, valUnset, mkEntry]
+  simp only [sizeMsgList, hn, Bool.and_false, Bool.false_eq_true, if_false, entry_size S kk vty k v h, tEntrySize]
   omega
 
 /-- the bytes of the entry seen as a message of the entry type: key record, value record -/
@@ -98,47 +99,67 @@ theorem tEntryOps_eq (S : Schema) (num : Nat) (kk : SK) (vty : Ty) (k v : V) (h 
     | err => simp
     | panic => simp
 
-/-- the entries of a Go map value, as the marshal-side model holds them -/
-def IsEntry : V → Prop
+/-- the entries of a Go map value, as the marshal-side model holds them: key and value, or — in a message-valued
+    map only — key and nil pointer -/
+def IsEntry (vty : Ty) : V → Prop
   | .msg [.one _, .one _] [] => True
+  | .msg [.one _, .unset] [] => ∃ j, vty = .msg j
   | _ => False
 
-theorem IsEntry.eq {e : V} (h : IsEntry e) : e = mkEntry (entryKey e) (entryVal e) := by
+/-- the model's test (`nilEntry`, on the entry type) is the template's test (`tNil`, on the value kind) -/
+theorem nilEntry_entryMD (kk : SK) (vty : Ty) (e : V) : nilEntry (entryMD kk vty) e = tNil vty e := by
+  cases vty <;> simp [nilEntry, msgValued, entryMD, tNil]
+
+theorem IsEntry.eq {vty : Ty} {e : V} (h : IsEntry vty e) (hn : tNil vty e = false) :
+    e = mkEntry (entryKey e) (entryVal e) := by
   match e, h with
   | .msg [.one k, .one v] [], _ => rfl
+  | .msg [.one k, .unset] [], ⟨j, hj⟩ => subst hj; simp [tNil, valUnset] at hn
 
 /-- **the `range` loop of `SizeOfMapEntry` = the `sizeMsgList` arm**, whatever the iteration order -/
 theorem tMapSize_eq (S : Schema) (num : Nat) (kk : SK) (vty : Ty) (h : legalKey kk = true) :
-    ∀ (es : List V), (∀ e ∈ es, IsEntry e) → tMapSize S num kk vty es = sizeMsgList S (entryMD kk vty) num es
+    ∀ (es : List V), (∀ e ∈ es, IsEntry vty e) →
+      tMapSize S num kk vty es = sizeMsgList S (entryMD kk vty) num true es
   | [], _ => by simp [tMapSize, sizeMsgList]
   | e :: es, hes => by
-    have he := (hes e (by simp)).eq
     have ih := tMapSize_eq S num kk vty h es (fun x hx => hes x (by simp [hx]))
-    have h1 := tEntrySize_eq S num kk vty (entryKey e) (entryVal e) h
-    rw [← he] at h1
-    simp only [tMapSize, h1, ih, sizeMsgList]
-    omega
+    cases hn : tNil vty e with
+    | true =>
+      -- `if v != nil { … }` is not entered: nothing is added by either
+      simp only [tMapSize, sizeMsgList, nilEntry_entryMD, hn, Bool.and_self, if_true, ih]
+    | false =>
+      have he := (hes e (by simp)).eq hn
+      have h1 := tEntrySize_eq S num kk vty (entryKey e) (entryVal e) h
+      rw [← he] at h1
+      simp only [tMapSize, h1, ih, sizeMsgList, nilEntry_entryMD, hn, Bool.and_false, Bool.false_eq_true, if_false]
+      omega
 
 /-- **the `range` loop of `MarshalMapEntry` = the `opsMsgList` arm**: same outcome (ok / error / panic), same
     bytes, every call determined -/
 theorem tMapOps_eq (S : Schema) (num : Nat) (kk : SK) (vty : Ty) (h : legalKey kk = true) :
-    ∀ (es : List V), (∀ e ∈ es, IsEntry e) → (∀ e ∈ es, ∀ j, vty = .msg j → OKMsgV S (S.md j) (entryVal e)) →
-    (tMapOps S num kk vty es).map wiresOf = (opsMsgList S (entryMD kk vty) num es).map wiresOf ∧
+    ∀ (es : List V), (∀ e ∈ es, IsEntry vty e) → (∀ e ∈ es, ∀ j, vty = .msg j → OKMsgV S (S.md j) (entryVal e)) →
+    (tMapOps S num kk vty es).map wiresOf = (opsMsgList S (entryMD kk vty) num true es).map wiresOf ∧
       ∀ ops, tMapOps S num kk vty es = .ok ops → ∀ op ∈ ops, OpExact op
   | [], _, _ => by simp [tMapOps, opsMsgList, Res.map]
   | e :: es, hes, hvs => by
-    have he := (hes e (by simp)).eq
     obtain ⟨ih, ihx⟩ := tMapOps_eq S num kk vty h es (fun x hx => hes x (by simp [hx])) (fun x hx => hvs x (by simp [hx]))
+    cases hn : tNil vty e with
+    | true =>
+      -- `if v == nil { continue }`: no call is made by either
+      simp only [tMapOps, opsMsgList, nilEntry_entryMD, hn, Bool.and_self, if_true]
+      exact ⟨ih, ihx⟩
+    | false =>
+    have he := (hes e (by simp)).eq hn
     obtain ⟨e1, e2, e3⟩ := tEntryOps_eq S num kk vty (entryKey e) (entryVal e) h (hvs e (by simp))
     rw [← he] at e1 e2 e3
-    simp only [tMapOps, opsMsgList]
+    simp only [tMapOps, opsMsgList, nilEntry_entryMD, hn, Bool.and_false, Bool.false_eq_true, if_false]
     cases hb : bytesMsgV S (entryMD kk vty) e with
     | ok body =>
       obtain ⟨a, ha, hw, hx⟩ := e1 body hb
       rw [ha]
       cases ht : tMapOps S num kk vty es with
       | ok b =>
-        cases hr : opsMsgList S (entryMD kk vty) num es with
+        cases hr : opsMsgList S (entryMD kk vty) num true es with
         | ok rest =>
           rw [ht, hr] at ih
           simp only [Res.map, Res.ok.injEq] at ih
@@ -153,12 +174,12 @@ theorem tMapOps_eq (S : Schema) (num : Nat) (kk : SK) (vty : Ty) (h : legalKey k
         | err => rw [ht, hr] at ih; simp [Res.map] at ih
         | panic => rw [ht, hr] at ih; simp [Res.map] at ih
       | err =>
-        cases hr : opsMsgList S (entryMD kk vty) num es with
+        cases hr : opsMsgList S (entryMD kk vty) num true es with
         | ok rest => rw [ht, hr] at ih; simp [Res.map] at ih
         | err => simp [Res.map]
         | panic => rw [ht, hr] at ih; simp [Res.map] at ih
       | panic =>
-        cases hr : opsMsgList S (entryMD kk vty) num es with
+        cases hr : opsMsgList S (entryMD kk vty) num true es with
         | ok rest => rw [ht, hr] at ih; simp [Res.map] at ih
         | err => rw [ht, hr] at ih; simp [Res.map] at ih
         | panic => simp [Res.map]
@@ -169,18 +190,18 @@ theorem tMapOps_eq (S : Schema) (num : Nat) (kk : SK) (vty : Ty) (h : legalKey k
     the calls of the `range` loop of `MarshalMapEntry` write, and running those calls on an encoder with that
     much room appends exactly those bytes (no panic, no slack) — for the entries in any order -/
 theorem tMap_exact (S : Schema) (num : Nat) (kk : SK) (vty : Ty) (h : legalKey kk = true) (ht : ValidTag num)
-    (es : List V) (hes : ∀ e ∈ es, IsEntry e) (hok : OKMsgList S (entryMD kk vty) es)
+    (es : List V) (hes : ∀ e ∈ es, IsEntry vty e) (hok : OKMsgList S (entryMD kk vty) es)
     (hvs : ∀ e ∈ es, ∀ j, vty = .msg j → OKMsgV S (S.md j) (entryVal e))
     (ops : List EncOp) (ho : tMapOps S num kk vty es = .ok ops) :
     tMapSize S num kk vty es = (wiresOf ops).length ∧
       ∀ (e : Enc), e.Room (wiresOf ops).length → ∃ e', e.run ops = .ok e' ∧ Enc.Appended e e' (wiresOf ops) := by
   obtain ⟨hw, hx⟩ := tMapOps_eq S num kk vty h es hes hvs
   rw [ho] at hw
-  cases hr : opsMsgList S (entryMD kk vty) num es with
+  cases hr : opsMsgList S (entryMD kk vty) num true es with
   | ok ops0 =>
     rw [hr] at hw
     simp only [Res.map, Res.ok.injEq] at hw
-    obtain ⟨s, _⟩ := msgList_exact S (entryMD kk vty) num es ops0 ht hok hr
+    obtain ⟨s, _⟩ := msgList_exact S (entryMD kk vty) num true es ops0 ht hok hr
     refine ⟨by rw [tMapSize_eq S num kk vty h es hes, s, hw], ?_⟩
     intro e hroom
     exact run_exact ops e (hx ops ho) hroom
